@@ -394,9 +394,46 @@ def _n4(run: Run, w: World) -> None:
     run.floor("N4", nn, 2, "__name__ reads in the printers")
 
 
+# SymPy base classes of the library's dimensioned symbols whose instances SymPy REBUILDS from their args (Basic.doit, simplify: `self.func(*args)`):
+# they are not Atom subclasses. Symbol and Quantity (AtomicExpr) are atoms: doit() returns the object itself.
+REBUILT_BASES = {"IndexedBase"}
+
+
+def _n5(run: Run, w: World) -> None:
+    """display names and the declared dimension live in Python attributes set by __init__, not in SymPy's args: a class that SymPy rebuilds from its args loses them
+    (the rebuilt IndexedSymbol prints its generated name SYM<n> and is dimensionless). Such a class has to be its own result of doit() - or hand out a `func`
+    that returns the object itself, as Quantity does."""
+    run.rule("N5", "a dimensioned symbol class that SymPy rebuilds from its args (not an Atom) evaluates to itself: doit() returns self, or func returns the object")
+    m = run.src.need(SYMS)
+    for cls in [c for c in m.tree.body if isinstance(c, ast.ClassDef)]:
+        bases = {(dotted(b) or "").split(".")[-1] for b in cls.bases}
+        if "DimensionSymbol" not in bases or not (bases & REBUILT_BASES):
+            continue
+        run.ob("N5", cls.name)
+        ok = False
+        for f_ in [x for x in cls.body if isinstance(x, ast.FunctionDef)]:
+            rets = [r for r in ast.walk(f_) if isinstance(r, ast.Return)]
+            if f_.name == "doit" and rets and all(isinstance(r.value, ast.Name) and r.value.id == "self" for r in rets):
+                ok = True
+            if f_.name == "func" and any(dotted(d) == "property" for d in f_.decorator_list) and rets:
+                # lambda *_: self / partial(<identity method>, self)
+                for r in rets:
+                    v = r.value
+                    if isinstance(v, ast.Lambda) and isinstance(v.body, ast.Name) and v.body.id == "self":
+                        ok = True
+                    if isinstance(v, ast.Call) and dotted(v.func) == "partial" and len(v.args) == 2 and dotted(v.args[1]) == "self":
+                        ok = True
+        if not ok:
+            run.violate("N5", f"{SYMS}:{cls.name}:rebuilt-from-args", m, cls,
+                        f"{cls.name} derives from {sorted(bases & REBUILT_BASES)[0]}, which SymPy rebuilds as `self.func(*self.args)` in doit()/simplify(); the rebuilt object goes through "
+                        f"__init__ with the bare label and comes out with the generated name SYM<n> as display name and dimensionless - `law.subs(global_index, local_index).doit()` "
+                        f"(the library's own idiom for indexed sums) then prints SYM244[1] + SYM244[2] and loses the declared dimension. Define doit() to return self (or a func that does)")
+
+
 def check(run: Run) -> None:
     w = World(run.src)
     prefixes = _n1(run, w)
     _n2(run, w, prefixes)
     _n3(run, w)
     _n4(run, w)
+    _n5(run, w)
